@@ -427,6 +427,12 @@ class FitBase(FileIOMixin, object):
             self._fitter.parameter_to_minimize = self._cost_function.name
             self._implicit_no_errors = False
 
+    def _on_constraint_change(self):
+        """The list behind the node 'parameter_constraints' has changed: the cost and any fit results are outdated."""
+        self._nexus.get("parameter_constraints").mark_for_update()
+        self._fitter.reset_minimizer()
+        self._loaded_result_dict = None
+
     def _set_data_as_model_ref(self):
         for _err in self._param_model.get_matching_errors({"relative": True}).values():
             _old_ref = _err.reference
@@ -909,6 +915,7 @@ class FitBase(FileIOMixin, object):
             )
         )
         self._fit_param_names_bad_default = self._fit_param_names_bad_default.difference(names)
+        self._on_constraint_change()
 
     def add_parameter_constraint(self, name, value, uncertainty, relative=False):
         """Apply a simple gaussian constraint to a single fit parameter.
@@ -924,6 +931,7 @@ class FitBase(FileIOMixin, object):
             raise ValueError("Unknown parameter name: %s" % name) from _e
         self._fit_param_constraints.append(GaussianSimpleParameterConstraint(index=_index, value=value, uncertainty=uncertainty, relative=relative))
         self._fit_param_names_bad_default.discard(name)
+        self._on_constraint_change()
 
     def get_matching_errors(self, matching_criteria=None, matching_type="equal"):
         """Return a list of uncertainty objects fulfilling the specified matching criteria.
